@@ -44,6 +44,10 @@ class CallMixin:
                 st.pc[:] = tmp.pc
                 yield st, v
                 return
+            if f.id == 'none_of':
+                ty = TOpt(parse_type(e.args[0].value, self.reg.enums))
+                yield st, V(ty, ty.none())
+                return
             if f.id == 'arg_of':
                 key = f'$arg:{e.args[0].value}:{e.args[1].value}'
                 if key not in st.env:
@@ -62,12 +66,8 @@ class CallMixin:
                 ptys = [parse_type(t, self.reg.enums) for _, t in sf.params]
                 rty = parse_type(sf.ret, self.reg.enums)
                 cargs = [self.coerce(a, t, st) for a, t in zip(args, ptys)]
-                saved = self.cur_opaque
-                self.cur_opaque = saved - {sf.name}
-                try:
-                    body = self._expand_spec(sf, cargs, rty, st)
-                finally:
-                    self.cur_opaque = saved
+                # only this application is opened; helper specs inside keep their opaque status
+                body = self._expand_spec(sf, cargs, rty, st)
                 uf = self.spec_apply(sf, args, st)
                 yield st, V(BOOL, uf.t == body.t)
                 return
